@@ -50,6 +50,14 @@ PIPES = {
     "internal-first-reduce": {"roots": {"x": ["i"]}, "sizes": S2, "funcs": [
         _f("f", ["x"], {"x": ["i"]}, ["u", "i"], ["u"], ["a"]), _f("g", ["a"], {"a": [None, "i"]}, ["i"], [], ["c"])]},
 }
+# every element of `a` is None (a written None is a value, not a missing element); explored by THIS check only, with a
+# smaller bound: single executor, deviation bound 1, sequential + thread real pools
+EXTRA_PIPES = {
+    "none-elements": {"roots": {"x": ["i"]}, "sizes": S2, "funcs": [
+        {**_f("f", ["x"], {"x": ["i"]}, ["i"], [], ["a"]), "none": True}, _f("g", ["a"], {"a": ["i"]}, ["i"], [], ["c"])]},
+}
+EXTRA = set(EXTRA_PIPES)
+ALL_PIPES = {**PIPES, **EXTRA_PIPES}
 
 # ------------------------------------------------------------------------------------------------
 # dump counting (each storage element must be dumped exactly once: worker xor parent)
@@ -152,7 +160,7 @@ def execute(cfg, chooser):  # noqa: C901, PLR0912
     """one complete execution of the real map under the schedule chosen by `chooser`"""
     _install_dump_counter()
     _install_one_manager()
-    spec = PIPES[cfg["pipe"]]
+    spec = ALL_PIPES[cfg["pipe"]]
     inputs = gen_map.make_inputs(spec, "list")
     s = sched.Sched(chooser, eager_loop=bool(cfg.get("eager_loop", False)))
     baton = None
@@ -242,7 +250,7 @@ def execute(cfg, chooser):  # noqa: C901, PLR0912
 
 def judge(cfg, obs):
     """compare one execution with the sequential reference; returns [(sig, text)]"""
-    spec = PIPES[cfg["pipe"]]
+    spec = ALL_PIPES[cfg["pipe"]]
     inputs = gen_map.make_inputs(spec, "list")
     exp, calls = gen_map.ref_map(spec, inputs)
     base = {"pipe": cfg["pipe"], "entry": cfg["entry"]}
@@ -274,10 +282,10 @@ def judge(cfg, obs):
     return out
 
 
-def explore_config(cfg, bound, acc, max_exec=None):
+def explore_config(cfg, bound, acc, max_exec=None, shard=None):
     outcomes, orders = set(), set()
     n = 0
-    for ch, obs in explore.choice_dfs(lambda c: execute(cfg, c), bound, max_exec):
+    for ch, obs in explore.choice_dfs(lambda c: execute(cfg, c), bound, max_exec, shard):
         n += 1
         acc.transitions += len(ch.trace)
         acc.traces += 1
@@ -303,7 +311,7 @@ def explore_config(cfg, bound, acc, max_exec=None):
 # real pools (free running; one schedule each)
 # ------------------------------------------------------------------------------------------------
 def run_real(cfg):
-    spec = PIPES[cfg["pipe"]]
+    spec = ALL_PIPES[cfg["pipe"]]
     inputs = gen_map.make_inputs(spec, "list")
     _install_one_manager()
     folder = boot.mkscratch("c03r-")
@@ -382,9 +390,11 @@ def storages(spec, tier):
 
 def configs(tier):
     out = []
-    for pipe, spec in PIPES.items():
+    for pipe, spec in ALL_PIPES.items():
         for st in storages(spec, tier):
             for ex in ("one", "per-output", "default-dict", "partial"):
+                if pipe in EXTRA and ex != "one":
+                    continue
                 for entry in ("sync", "async"):
                     out.append({"pipe": pipe, "storage": st, "exec": ex, "entry": entry})
     return out
@@ -393,13 +403,15 @@ def configs(tier):
 def real_configs(tier):
     out = []
     pools = ["thread", "sequential"] if tier == "quick" else ["thread", "sequential", "process", "default-pool"]
-    for pipe, spec in PIPES.items():
+    for pipe, spec in ALL_PIPES.items():
         for st in storages(spec, tier):
             for pool in pools:
+                if pipe in EXTRA and pool not in ("sequential", "thread"):
+                    continue
                 if pool in ("process", "default-pool") and st == "dict" or (isinstance(st, dict) and "dict" in st.values() and pool in ("process", "default-pool")):
                     continue  # plain dict storage cannot cross a process boundary (pipefunc rejects it)
                 out.append({"pipe": pipe, "storage": st, "pool": pool})
-                if pool in ("thread", "process") and isinstance(st, str):
+                if pool in ("thread", "process") and isinstance(st, str) and pipe not in EXTRA:
                     for delay in ("first-slow", "later-slow"):
                         out.append({"pipe": pipe, "storage": st, "pool": pool, "delay": delay})
     return out
@@ -421,8 +433,13 @@ def plan(tier, seed):
     for b, which in STAGES[tier]:
         if which == "task-splitting":
             for pipe, spec in PIPES.items():
+                if pipe in EXTRA:
+                    continue
                 for st in ("file_array", "dict", "shared_memory_dict"):
-                    units.append((f"task-splitting-preemptions<={b}", ("dfs", {"pipe": pipe, "storage": st, "exec": "baton", "entry": "sync"}, b)))
+                    # the search tree of one configuration is dealt to several units below its root (explore.choice_dfs shard=)
+                    ns = (12 if st == "shared_memory_dict" else 4) * (2 if pipe == "map2d-partial-full" else 1)
+                    for k in range(ns):
+                        units.append((f"task-splitting-preemptions<={b}", ("dfs", {"pipe": pipe, "storage": st, "exec": "baton", "entry": "sync"}, b, (k, ns))))
             continue
         for cfg in cfgs:
             if which.startswith("eager-loop"):
@@ -431,6 +448,8 @@ def plan(tier, seed):
                     continue
                 cfg = {**cfg, "eager_loop": True}
             if which == "core" and not _core(cfg):
+                continue
+            if cfg["pipe"] in EXTRA and not (which == "all" and b == 1):
                 continue
             if which == "core-sync-dict" and not (_core(cfg) and cfg["storage"] == "dict"):
                 continue
@@ -450,8 +469,8 @@ def plan(tier, seed):
 def run_unit(unit):
     acc = Acc()
     if unit[0] == "dfs":
-        _, cfg, bound = unit
-        n, norders = explore_config(cfg, bound, acc)
+        _, cfg, bound = unit[:3]
+        n, norders = explore_config(cfg, bound, acc, shard=unit[3] if len(unit) > 3 else None)
         if cfg["exec"] == "one" and cfg["storage"] == "dict":
             acc.sample({"cfg": cfg, "deviation_bound": bound, "executions": n, "distinct_call_orders": norders})
     else:
